@@ -19,11 +19,23 @@ const Rule = "cases = (implementation, hash function, HashOpts, shuffle seed, hi
 	"absent colliding keys; fill / DeleteAll cycles with fresh keys below the grow threshold; initial capacities whose doubling lands " +
 	"next to the square of a prime; grow/shrink oscillation; each call under a 2 s watchdog, probe walks measured before every put/get/delete and " +
 	"compared with the Model's count; non-trivial = a probe/chain walk of length >= 3 or a resize (including same-size re-hash) occurred; " +
+	"components productions / lrtable: grammar.Productions (Add/Get/RemoveAll) and lr.ParsingTable (AddACTION/SetGOTO/ACTION/GOTO) driven " +
+	"through their API with head non-terminals / states / row symbols whose REAL hashes collide modulo 31 and modulo (31, 67) — fills past the " +
+	"(m+1)/2 slots a quadratic probe sequence reaches, lookups of absent colliding keys, add/removeall churn with fresh colliding heads — every " +
+	"call under the watchdog, internal tables (m, n, u, slot digest) compared with the Model built from the call sites' HashOpts; " +
 	"distinct = distinct (header, op list)"
 
 var mode = c02.Mode{ProbeBound: true, Watchdog: 2 * time.Second}
 
-func Exec(c hx.Case) hx.Result { return c02.ExecMode(c, mode) }
+func Exec(c hx.Case) hx.Result {
+	switch hx.HeaderGet(c.Header, "comp") {
+	case "productions":
+		return execProductions(c)
+	case "lrtable":
+		return execLRTable(c)
+	}
+	return c02.ExecMode(c, mode)
+}
 
 // genFill: n colliding live keys (no deletes), then lookups / deletes of absent keys — the D26 shape at every size.
 func genFill(r *hx.Rand, n int) []string {
@@ -68,6 +80,9 @@ func Main(run *hx.Run) {
 		for _, c := range cs {
 			run.Do(hx.HeaderGet(c.Header, "comp"), c, Exec)
 		}
+	}
+	if mainInternal(run, lim) {
+		return
 	}
 	degenerate := []string{"const", "mod3", "modm", "id", "fnv"}
 	for _, comp := range c02.Comps {
